@@ -139,8 +139,8 @@ def match_known(known, pid, res):
     """Is this failed obligation a listed open finding?  Matching is by obligation (contract/clause)
     and, when the entry has one, by a predicate over the concrete replayed input."""
     for k in known:
-        if k.get('status') != 'open' or k['property'] != pid:
-            continue
+        if k.get('status') != 'open':
+            continue        # (an open finding is the same defect under whichever property's check its obligation is evaluated)
         obs = k['obligation'] if isinstance(k['obligation'], list) else [k['obligation']]
         if res['name'] not in obs:
             continue
@@ -184,6 +184,20 @@ def main(argv=None):
     # contracts happened to run in the same worker before
     with mp.Pool(min(args.jobs, len(jobs)), maxtasksperchild=1) as pool:
         outs = pool.map(_worker, jobs, chunksize=1)
+    # a contract with an undecided obligation is run once more, alone and with three times the solver budget: `unknown` under
+    # load (all cores busy with the other contracts) must not flip a verdict
+    redo = [i for i, o in enumerate(outs) if any(r['status'] == 'unknown' for r in o['results'])]
+    if redo and not os.environ.get('PYVC_NO_RETRY'):
+        os.environ['PYVC_TIMEOUT_SCALE'] = '3'
+        with mp.Pool(min(4, len(redo)), maxtasksperchild=1) as pool:
+            again = pool.map(_worker, [jobs[i] for i in redo], chunksize=1)
+        os.environ.pop('PYVC_TIMEOUT_SCALE', None)
+        for i, o2 in zip(redo, again):
+            n1 = sum(1 for r in outs[i]['results'] if r['status'] == 'unknown')
+            n2 = sum(1 for r in o2['results'] if r['status'] == 'unknown')
+            if not o2['error'] and n2 <= n1:
+                o2['info']['retried_with_larger_budget'] = True
+                outs[i] = o2
     extra = {}
     extra_viol, extra_err = [], []
     if hasattr(reg, 'EXTRA_CHECKS') and pid in reg.EXTRA_CHECKS:
@@ -269,7 +283,8 @@ def main(argv=None):
         if key in seen_k:
             continue
         seen_k.add(key)
-        lines.append('KNOWN-FINDING: property=%s %s: %s' % (pid, key, k.get('what', r['name'])))
+        rec = '' if k.get('property') == pid else ' (recorded for %s)' % k.get('property')
+        lines.append('KNOWN-FINDING: property=%s %s%s: %s' % (pid, key, rec, k.get('what', r['name'])))
     if n_ob == 0:
         errors.append('zero obligations generated')
     status = 0
